@@ -177,7 +177,41 @@ static void run_equiv(uint64_t idx, pv_rng* rng) {
     free(a); free(b); free(pw);
 }
 
+/* ---------------------------------------------------------------- the operation while other threads encrypt their own seeds */
+static bool conc_iter(pv_rng* r, int iter, void* user, char* err, size_t errsz) {
+    (void)iter; (void)user;
+    pv_mseed m0; pv_gen_mseed(r, 7, true, &m0);
+    polyseed_data* s = pv_seed_from_model(&m0);
+    if (!s) { snprintf(err, errsz, "cannot load %s", pv_mseed_str(&m0)); return false; }
+    const char* cls; char* pw = pv_gen_password(r, &cls);
+    char* nf = pv_nfkd_alloc(pw); size_t nl = strlen(nf);
+    bool ok = true;
+    if (nl < POLYSEED_STR_SIZE) {
+        pv_mseed m = m0;
+        for (int k = 0; k < 2 && ok; ++k) {
+            pv_api_crypt(s, pw);
+            if (pv_w->nkdf != 1) { ok = false; snprintf(err, errsz, "crypt invoked the KDF %d times", pv_w->nkdf); break; }
+            pv_kdfrec* q = &pv_w->kdf[0];
+            if (q->pwlen != nl || memcmp(q->pw, nf, nl < sizeof q->pw ? nl : sizeof q->pw)) { ok = false; snprintf(err, errsz, "[%s] KDF password (len %zu) is not NFKD(password) (len %zu)", cls, q->pwlen, nl); break; }
+            if (q->saltlen != 16 || memcmp(q->salt, SALT, 16) || q->iters != 10000 || q->keylen != 32) { ok = false; snprintf(err, errsz, "KDF salt/iterations/length differ"); break; }
+            uint8_t mk[32]; memcpy(mk, q->key_written, 32); pv_m_crypt(&m, mk);
+            const char* mm = pv_seed_mismatch(s, &m, 0); if (mm) { ok = false; snprintf(err, errsz, "[%s] after %d application(s): %s", cls, k + 1, mm); }
+        }
+        if (ok && !pv_mseed_eq(&m, &m0)) { ok = false; snprintf(err, errsz, "model crypt is not an involution (harness)"); }
+    }
+    free(nf); free(pw); pv_api_free(s);
+    return ok;
+}
+static uint64_t n_conc(void) { return pv_scaled(3, 100); }
+static void run_conc(uint64_t idx, pv_rng* rng) {
+    (void)idx; pv_w->kdf_mode = 0;
+    enum { NT = 8, IT = 2000 }; static pv_conc_result res[NT];
+    uint64_t seed = pv_rand64(rng);
+    pv_concurrent(NT, IT, seed, 35, conc_iter, NULL, res);
+    if (pv_concurrent_verdict(res, NT, IT, "C12/differs-under-concurrency", "concurrent.applications_equal_model")) PV_DISTINCT("nontrivial", seed);
+}
+
 int main(int argc, char** argv) {
-    static const pv_section secs[] = { { "crypt", n_crypt, run_crypt }, { "equivalent", n_equiv, run_equiv } };
-    return pv_main(argc, argv, "C12", secs, 2, init, NULL);
+    static const pv_section secs[] = { { "crypt", n_crypt, run_crypt }, { "equivalent", n_equiv, run_equiv }, { "concurrent", n_conc, run_conc } };
+    return pv_main(argc, argv, "C12", secs, 3, init, NULL);
 }
